@@ -3,11 +3,14 @@
 #define ENV_NET_ASYNC_ENV_H
 #include "env/common.h"
 #include <time.h>
-/* an arbitrary clock: time() returns any value, difftime is the difference as a double [ASSUMED] */
+/* an arbitrary clock [ASSUMED] */
 /* the clock does not advance while ONE client operation runs: time() returns the same arbitrary g_env_now */
 long long g_env_now;
 time_t time(time_t *t) { time_t v = (time_t)g_env_now; if (t) *t = v; return v; }
-double difftime(time_t a, time_t b) { return (double)a - (double)b; }
+/* difftime is kept abstract (an uninterpreted function of its two arguments): the 64-bit -> double arithmetic of a
+ * literal model costs minutes per obligation group, and the property only needs "the SAME elapsed time decides" */
+double __CPROVER_uninterpreted_env_difftime(long long a, long long b);
+double difftime(time_t a, time_t b) { return __CPROVER_uninterpreted_env_difftime((long long)a, (long long)b); }
 
 /* ---- the response object seen by handleResponse(): its 8 call-backs as stubs with ghost results [ASSUMED] ------ */
 #include "net_async.h"
@@ -30,5 +33,5 @@ void *as_resp_ref(void *resp) { g_as_ref_calls++; return resp; }
 void as_resp_free(void *resp) { }
 
 int g_env_dispatch_res, g_env_handle_res;   /* results of the transport dispatch / response-queue call-backs of asyncClient_run */
-#define ENV_NET_ASYNC_ASSUMED "time(): arbitrary value, constant during one client operation; difftime(a,b) = (double)a - (double)b (env/net_async_env.h)"
+#define ENV_NET_ASYNC_ASSUMED "time(): arbitrary value, constant during one client operation; difftime(a,b): libc function, kept abstract (uninterpreted function of a and b) (env/net_async_env.h)"
 #endif
